@@ -431,8 +431,7 @@ class TrRaw(Tr):
         self.loop = carried
         body = self.block(st.body, env_b, lambda e2, i2: "  " * i2 + self.cont_text(e2) + "\n", ind + 2)
         self.loop = saved
-        has_ret = any(isinstance(z, (ast.Return, ast.Raise)) or (getattr(self, "assert_exits", False) and isinstance(z, ast.Assert))
-                      for z in ast.walk(st))
+        has_ret = getattr(self, "assert_exits", False) or any(isinstance(z, (ast.Return, ast.Raise)) for z in ast.walk(st))
         after = self.block(rest, env, k, ind + 1)
         beta = self.w.lean_ret(self.fn) if has_ret else "Empty"
         out = f"{pad}match PyRt.forEach (β := {beta}) {it} {sigma} (fun {pat} {self.tuple_pat(carried)} =>\n{body}{pad}  ) with\n"
